@@ -1669,6 +1669,7 @@ func (f *frame) havocFreshRegion(h *Heap, ts []types.Type, water string) (refArr
 			}
 		}
 		nv := e.fresh("Hfr."+k, so)
+		e.byteRange(k, nv)
 		e.useQuant = true
 		e.assume(fmt.Sprintf("(forall ((r Int)) (! (=> (<= r %s) (= (select %s r) (select %s r))) :pattern ((select %s r))))", water, nv, old, nv))
 		h.m[k] = nv
